@@ -121,6 +121,21 @@ func (e *env) fn(name string) *ast.FuncDecl {
 	return nil
 }
 
+// fnIn finds a function declared in the given file (several files declare functions of the same name on different receivers).
+func (e *env) fnIn(file, name string) *ast.FuncDecl {
+	f, ok := e.files[file]
+	if !ok {
+		fail("file %s not found", file)
+	}
+	for _, d := range f.Decls {
+		if fd, ok := d.(*ast.FuncDecl); ok && fd.Name.Name == name && fd.Body != nil {
+			return fd
+		}
+	}
+	fail("function %s not found in %s", name, file)
+	return nil
+}
+
 // secondsIn finds  time.Second*N / time.Second * N  inside calls to the given callee within fn.
 func (e *env) secondsIn(fnName, callee string) int64 {
 	fd := e.fn(fnName)
@@ -326,6 +341,265 @@ func (e *env) trStmts(stmts []ast.Stmt, param string) string {
 	return ""
 }
 
+// ---- translation over named atoms (selectors, identifiers and parameterless calls of the source mapped to Gallina variables) ----
+
+type atoms struct {
+	z map[string]string // integer-valued source expressions -> Gallina variable of type Z
+	b map[string]string // boolean-valued source expressions -> Gallina variable of type bool
+	w string            // what is being translated (for messages)
+}
+
+func exprKey(x ast.Expr) string {
+	switch v := x.(type) {
+	case *ast.Ident:
+		return v.Name
+	case *ast.SelectorExpr:
+		return exprKey(v.X) + "." + v.Sel.Name
+	case *ast.CallExpr:
+		if len(v.Args) == 0 {
+			return exprKey(v.Fun) + "()"
+		}
+		if len(v.Args) == 1 { // conversions such as byte(h.payloadLength), int64(x)
+			if id, ok := v.Fun.(*ast.Ident); ok {
+				switch id.Name {
+				case "byte", "int", "int64", "uint64", "uint16", "opcode":
+					return exprKey(v.Args[0])
+				}
+			}
+		}
+	case *ast.ParenExpr:
+		return exprKey(v.X)
+	}
+	return "?"
+}
+
+func (e *env) azExpr(x ast.Expr, a atoms) string {
+	if v, ok := a.z[exprKey(x)]; ok {
+		return v
+	}
+	if c, ok := e.eval(x, 0); ok && c.Kind() == constant.Int {
+		return "(" + c.ExactString() + ")"
+	}
+	fail("%s: integer expression outside the grammar at %v", a.w, e.fset.Position(x.Pos()))
+	return ""
+}
+
+func (e *env) aCond(x ast.Expr, a atoms) string {
+	if v, ok := a.b[exprKey(x)]; ok {
+		return v
+	}
+	switch v := x.(type) {
+	case *ast.ParenExpr:
+		return e.aCond(v.X, a)
+	case *ast.UnaryExpr:
+		if v.Op == token.NOT {
+			return "(negb " + e.aCond(v.X, a) + ")"
+		}
+	case *ast.BinaryExpr:
+		switch v.Op {
+		case token.LAND:
+			return "(andb " + e.aCond(v.X, a) + " " + e.aCond(v.Y, a) + ")"
+		case token.LOR:
+			return "(orb " + e.aCond(v.X, a) + " " + e.aCond(v.Y, a) + ")"
+		}
+		l, r := e.azExpr(v.X, a), e.azExpr(v.Y, a)
+		switch v.Op {
+		case token.GEQ:
+			return fmt.Sprintf("(Z.leb %s %s)", r, l)
+		case token.LEQ:
+			return fmt.Sprintf("(Z.leb %s %s)", l, r)
+		case token.GTR:
+			return fmt.Sprintf("(Z.ltb %s %s)", r, l)
+		case token.LSS:
+			return fmt.Sprintf("(Z.ltb %s %s)", l, r)
+		case token.EQL:
+			return fmt.Sprintf("(Z.eqb %s %s)", l, r)
+		case token.NEQ:
+			return fmt.Sprintf("(negb (Z.eqb %s %s))", l, r)
+		}
+	}
+	fail("%s: condition outside the grammar at %v", a.w, e.fset.Position(x.Pos()))
+	return ""
+}
+
+// taglessSwitches returns the `switch { case cond: ... }` statements at the top level of a function body, in order.
+func (e *env) taglessSwitches(fd *ast.FuncDecl) []*ast.SwitchStmt {
+	var out []*ast.SwitchStmt
+	for _, st := range fd.Body.List {
+		if sw, ok := st.(*ast.SwitchStmt); ok && sw.Tag == nil && sw.Init == nil {
+			out = append(out, sw)
+		}
+	}
+	return out
+}
+
+// guardChain renders a tagless switch as nested ifs; body classifies a case body as a Gallina value of type Z.
+func (e *env) guardChain(sw *ast.SwitchStmt, a atoms, body func(stmts []ast.Stmt) string, dflt string) string {
+	out := ""
+	for _, c := range sw.Body.List {
+		cc := c.(*ast.CaseClause)
+		if cc.List == nil {
+			fail("%s: default clause outside the grammar", a.w)
+		}
+		if len(cc.List) != 1 {
+			fail("%s: several expressions in one case outside the grammar", a.w)
+		}
+		for _, st := range cc.Body {
+			if br, ok := st.(*ast.BranchStmt); ok && br.Tok == token.FALLTHROUGH {
+				fail("%s: fallthrough outside the grammar", a.w)
+			}
+		}
+		out += fmt.Sprintf("if %s then %s else\n  ", e.aCond(cc.List[0], a), body(cc.Body))
+	}
+	return out + dflt
+}
+
+func callsNamed(stmts []ast.Stmt, name string) bool {
+	found := false
+	for _, st := range stmts {
+		ast.Inspect(st, func(n ast.Node) bool {
+			if ce, ok := n.(*ast.CallExpr); ok {
+				if se, ok := ce.Fun.(*ast.SelectorExpr); ok && se.Sel.Name == name {
+					found = true
+				}
+			}
+			return true
+		})
+	}
+	return found
+}
+
+// boolStmts: a body made of `if cond { return <bool> }` statements and a final `return <bool>`, over atoms.
+func (e *env) boolStmts(stmts []ast.Stmt, a atoms) string {
+	if len(stmts) == 0 {
+		fail("%s: control reaches the end of the function without return", a.w)
+	}
+	switch s := stmts[0].(type) {
+	case *ast.ReturnStmt:
+		if len(s.Results) == 1 {
+			if b, ok := boolLit(s.Results[0]); ok {
+				return b
+			}
+			return e.aCond(s.Results[0], a)
+		}
+	case *ast.IfStmt:
+		if s.Init == nil && s.Else == nil {
+			if b, ok := e.singleReturn(s.Body.List); ok {
+				return fmt.Sprintf("if %s then %s else\n  %s", e.aCond(s.Cond, a), b, e.boolStmts(stmts[1:], a))
+			}
+		}
+	}
+	fail("%s: statement outside the grammar at %v", a.w, e.fset.Position(stmts[0].Pos()))
+	return ""
+}
+
+// frameCode writes Gen/FrameCode.v: the decision logic of frame.go / read.go / compress.go that the model's theorems
+// are tied to by name (Proofs/GenTieP.v).
+func (e *env) frameCode(outdir string) {
+	var c strings.Builder
+	c.WriteString("(* GENERATED by /verif/tools/constx from /repo's working tree (frame.go writeFrameHeader / readFrameHeader, read.go readRSV1Illegal,\n   compress.go CompressionMode.opts) on every run — do not edit. *)\n")
+	c.WriteString("From Coq Require Import ZArith Bool.\n\n")
+
+	// writeFrameHeader: the 7-bit length field and the number of extended-length bytes
+	wa := atoms{z: map[string]string{"h.payloadLength": "n"}, w: "writeFrameHeader"}
+	sws := e.taglessSwitches(e.fnIn("frame.go", "writeFrameHeader"))
+	if len(sws) != 2 {
+		fail("writeFrameHeader: expected two tagless switch statements, found %d", len(sws))
+	}
+	code := e.guardChain(sws[0], wa, func(st []ast.Stmt) string {
+		if len(st) == 1 {
+			if as, ok := st[0].(*ast.AssignStmt); ok && as.Tok == token.OR_ASSIGN && len(as.Lhs) == 1 && len(as.Rhs) == 1 && exprKey(as.Lhs[0]) == "lengthByte" {
+				return e.azExpr(as.Rhs[0], wa)
+			}
+		}
+		fail("writeFrameHeader: first switch: case body outside the grammar (expected lengthByte |= e)")
+		return ""
+	}, "(0)")
+	fmt.Fprintf(&c, "(* the value or'ed into the second header byte for a payload of n bytes *)\nDefinition gen_len_code (n : Z) : Z :=\n  %s.\n\n", code)
+	ext := e.guardChain(sws[1], wa, func(st []ast.Stmt) string {
+		switch {
+		case callsNamed(st, "PutUint64") && !callsNamed(st, "PutUint16"):
+			return "(8)"
+		case callsNamed(st, "PutUint16") && !callsNamed(st, "PutUint64"):
+			return "(2)"
+		}
+		fail("writeFrameHeader: second switch: case body outside the grammar (expected PutUint64 or PutUint16)")
+		return ""
+	}, "(0)")
+	fmt.Fprintf(&c, "(* how many bytes of extended length follow it *)\nDefinition gen_len_ext (n : Z) : Z :=\n  %s.\n\n", ext)
+
+	// readFrameHeader: extended-length bytes read for a 7-bit field l7, and the rejection of negative lengths
+	ra := atoms{z: map[string]string{"payloadLength": "l7", "h.payloadLength": "n"}, w: "readFrameHeader"}
+	rsw := e.taglessSwitches(e.fnIn("frame.go", "readFrameHeader"))
+	if len(rsw) != 1 {
+		fail("readFrameHeader: expected one tagless switch statement, found %d", len(rsw))
+	}
+	rext := e.guardChain(rsw[0], ra, func(st []ast.Stmt) string {
+		switch {
+		case callsNamed(st, "Uint64") && !callsNamed(st, "Uint16"):
+			return "(8)"
+		case callsNamed(st, "Uint16") && !callsNamed(st, "Uint64"):
+			return "(2)"
+		case !callsNamed(st, "ReadFull") && len(st) == 1:
+			return "(0)"
+		}
+		fail("readFrameHeader: case body outside the grammar")
+		return ""
+	}, "(0)")
+	fmt.Fprintf(&c, "(* readFrameHeader: bytes of extended length read for the 7-bit field l7 *)\nDefinition gen_read_ext (l7 : Z) : Z :=\n  %s.\n\n", rext)
+	neg := ""
+	for _, st := range e.fnIn("frame.go", "readFrameHeader").Body.List {
+		if is, ok := st.(*ast.IfStmt); ok && is.Init == nil && is.Else == nil {
+			if be, ok := is.Cond.(*ast.BinaryExpr); ok && exprKey(be.X) == "h.payloadLength" {
+				if len(is.Body.List) == 1 {
+					if rs, ok := is.Body.List[0].(*ast.ReturnStmt); ok && len(rs.Results) == 2 {
+						neg = e.aCond(is.Cond, ra)
+					}
+				}
+			}
+		}
+	}
+	if neg == "" {
+		fail("readFrameHeader: the check of h.payloadLength that returns an error was not found")
+	}
+	fmt.Fprintf(&c, "(* readFrameHeader: a decoded length n (as int64) for which the header is refused *)\nDefinition gen_len_refused (n : Z) : bool :=\n  %s.\n\n", neg)
+
+	// readRSV1Illegal
+	rv := atoms{z: map[string]string{"h.opcode": "opcode"}, b: map[string]string{"c.flate()": "flate"}, w: "readRSV1Illegal"}
+	fmt.Fprintf(&c, "(* read.go readRSV1Illegal *)\nDefinition gen_rsv1_illegal (flate : bool) (opcode : Z) : bool :=\n  %s.\n\n", e.boolStmts(e.fnIn("read.go", "readRSV1Illegal").Body.List, rv))
+
+	// CompressionMode.opts
+	fd := e.fnIn("compress.go", "opts")
+	if fd.Recv == nil || len(fd.Recv.List) != 1 || len(fd.Recv.List[0].Names) != 1 {
+		fail("opts: unexpected receiver")
+	}
+	oa := atoms{z: map[string]string{fd.Recv.List[0].Names[0].Name: "m"}, w: "CompressionMode.opts"}
+	fields := map[string]string{}
+	if len(fd.Body.List) == 1 {
+		if rs, ok := fd.Body.List[0].(*ast.ReturnStmt); ok && len(rs.Results) == 1 {
+			x := rs.Results[0]
+			if ue, ok := x.(*ast.UnaryExpr); ok && ue.Op == token.AND {
+				x = ue.X
+			}
+			if cl, ok := x.(*ast.CompositeLit); ok {
+				for _, el := range cl.Elts {
+					if kv, ok := el.(*ast.KeyValueExpr); ok {
+						fields[exprKey(kv.Key)] = e.aCond(kv.Value, oa)
+					}
+				}
+			}
+		}
+	}
+	if len(fields) != 2 || fields["clientNoContextTakeover"] == "" || fields["serverNoContextTakeover"] == "" {
+		fail("CompressionMode.opts: body outside the grammar (expected a literal with the two no_context_takeover fields)")
+	}
+	fmt.Fprintf(&c, "(* compress.go CompressionMode.opts: (clientNoContextTakeover, serverNoContextTakeover) *)\nDefinition gen_mode_opts (m : Z) : bool * bool :=\n  (%s, %s).\n", fields["clientNoContextTakeover"], fields["serverNoContextTakeover"])
+
+	if err := os.WriteFile(filepath.Join(outdir, "FrameCode.v"), []byte(c.String()), 0o644); err != nil {
+		fail("%v", err)
+	}
+}
+
 func main() {
 	if len(os.Args) != 3 {
 		fail("usage: constx <repo> <outdir>")
@@ -434,4 +708,5 @@ func main() {
 	if err := os.WriteFile(filepath.Join(outdir, "CloseCode.v"), []byte(c.String()), 0o644); err != nil {
 		fail("%v", err)
 	}
+	e.frameCode(outdir)
 }
